@@ -8,6 +8,7 @@ import (
 	"fmt"
 	"io"
 	"math/rand/v2"
+	"net/http"
 	"net/http/httptest"
 	"net/url"
 	"strings"
@@ -385,6 +386,14 @@ func runC14(c *mon.Ctx) {
 			case "AuthRedirect":
 				rec := httptest.NewRecorder()
 				req := httptest.NewRequest("GET", "https://sp.example.test/login", nil)
+				if r.IntN(2) == 0 {
+					// the incoming request has parameters of its own, named like the binding's: they are the browser's
+					// business, not part of what the SP sends to the IdP
+					req = httptest.NewRequest("POST", "https://sp.example.test/login?RelayState=from-query&SAMLRequest=from-query&SigAlg=q", strings.NewReader("RelayState=from-form&SAMLRequest=from-form&Signature=x&relayState=lower"))
+					req.Header.Set("Content-Type", "application/x-www-form-urlencoded")
+					req.Header.Set("Referer", "https://sp.example.test/deep?RelayState=from-referer")
+					req.AddCookie(&http.Cookie{Name: "RelayState", Value: "from-cookie"})
+				}
 				err = sp.AuthRedirect(rec, req, relay)
 				out = rec.Header().Get("Location")
 				if err == nil && rec.Code != 302 {
